@@ -207,7 +207,7 @@ def bytes_universe():
 
 
 def jobs(tier):
-    inp = 'abc:4' if tier == 'quick' else 'abc:5'
+    inp = 'abc:5' if tier == 'quick' else 'abc:6'
     for tag, start, rules, exp in universe(tier):
         allrules = [('start', ('rule', None, start))] + rules
         mods = [(tuple(allrules), (), 'start', None, (), False, 'named', None)]
